@@ -17,7 +17,9 @@
                                     the "mark on pop" traversals terminate within their fuel and return the
                                     minimum of the cell — every well-formed 3-map
   * `C03_faceId3_min`               the two-sided lock-step walk returns the minimum of the face cell on maps whose
-                                    3-glued faces are closed and mirrored (see the section for the exact hypothesis)
+                                    3-glued faces are mirrored and 3-linked as a whole (`FaceScope`) — closed or OPEN:
+                                    more than the property claims ("glued faces closed and mirrored"); faces that
+                                    are not 3-linked are unrestricted
   * `C03_same_id3_iff_same_cell`    equal identifiers ⇔ same cell
   * `C03_iter3_sorted`, `C03_iterVertices3_mem`, `C03_iterEdges3_mem`, `C03_iterVolumes3_mem`,
     `C03_iterFaces3_mem`            iterators: strictly increasing, exactly the identifiers of the in-use darts
@@ -727,40 +729,29 @@ theorem C03_plain_ids3 {m : Map X} (h : WF 4 m) {d : Nat} (hd0 : d ≠ 0) (hd : 
 
 /-! ## face identifier: the two-sided lock-step walk
 
-  Scope (the property's restriction, "glued faces are closed and mirrored"), as three decidable
-  conditions on the map:
+  Scope, as two decidable conditions on the map (`FaceScope`):
   * `mirror` — `Mirror m` of Model/WF.lean: across a 3-link, `β1` on one side is `β0` on the other;
-  * `sided`  — a face is 3-linked as a whole: along `β1`, a dart is 3-free iff its successor is;
-  * `closed` — a 3-linked dart is not 1-free (with `sided` and finiteness: its face is a closed cycle).
-  Faces that are NOT 3-linked are unrestricted: open or closed, `face_id_transac` replays its walk
-  backwards and (since the repair in /repo) takes the minimum with the dart that replay starts from.
+  * `sided`  — a face is 3-linked as a whole: along `β1`, a dart is 3-free iff its successor is.
+  The property claims the face clauses on maps whose glued faces are CLOSED and mirrored; closedness turns
+  out not to be needed (since the repair of the backward replay in /repo): on an open mirrored face both
+  sides of the forward walk end together (`mirror_fwd`), the replay starts from `β0 d` and `β1 (β3 d)`,
+  which are β3-images of each other (`mirror_bwd`), and covers the rest.  Faces that are NOT 3-linked are
+  unrestricted, open or closed (`faceId3_free`).
   `mirror` and `sided` cannot be dropped; smallest counterexamples on the real code (4 darts):
   * not `sided`:  chains `3→1`, `4→2`, 3-link `3—4` only: `face_id(2) = 2`, the cell is `{1,2,3,4}`;
-  * not `mirror`: 1-gons `1→1`, `2→2`, 2-gon `3→4→3`, 3-links `1—3`, `2—4`: `face_id(2) = 2`, cell `{1,2,3,4}`.
-  `closed` is the property's own restriction ("glued faces are closed"); an exhaustive run over all
-  well-formed 3-maps with at most 4 darts found no wrong `face_id` on mirrored, wholly 3-linked OPEN
-  faces either (since the repair of the backward replay), but that case is not proved here. -/
+  * not `mirror`: 1-gons `1→1`, `2→2`, 2-gon `3→4→3`, 3-links `1—3`, `2—4`: `face_id(2) = 2`, cell `{1,2,3,4}`. -/
 
 /-- the scope of the face-identifier clauses -/
 structure FaceScope (m : Map X) : Prop where
   mirror : Mirror m
   sided : ∀ d, d < m.n → m.β 1 d ≠ 0 → (m.β 3 d = 0 ↔ m.β 3 (m.β 1 d) = 0)
-  closed : ∀ d, d < m.n → m.β 3 d ≠ 0 → m.β 1 d ≠ 0
 
 instance (m : Map X) : Decidable (FaceScope m) :=
-  decidable_of_iff (Mirror m ∧ (∀ d, d < m.n → m.β 1 d ≠ 0 → (m.β 3 d = 0 ↔ m.β 3 (m.β 1 d) = 0)) ∧
-      (∀ d, d < m.n → m.β 3 d ≠ 0 → m.β 1 d ≠ 0))
-    ⟨fun ⟨a, b, c⟩ => ⟨a, b, c⟩, fun ⟨a, b, c⟩ => ⟨a, b, c⟩⟩
+  decidable_of_iff (Mirror m ∧ (∀ d, d < m.n → m.β 1 d ≠ 0 → (m.β 3 d = 0 ↔ m.β 3 (m.β 1 d) = 0)))
+    ⟨fun ⟨a, b⟩ => ⟨a, b⟩, fun ⟨a, b⟩ => ⟨a, b⟩⟩
 
 /-- the hypotheses of Props/C20b.lean (all faces closed, mirrored, 3-linked as a whole) are a special case -/
-theorem FaceScope.of_closedFaces {m : Map X} (h : WF 4 m) (hcl : C20.ClosedFaces m) (hM : Mirror m)
-    (hs : C20.Sided m) : FaceScope m := by
-  refine ⟨hM, hs, ?_⟩
-  intro d hd h3
-  have hd0 : d ≠ 0 := fun e => h3 (by rw [e]; exact h.null 3 (by omega))
-  cases hu : m.unused d with
-  | false => exact hcl d hd hd0 hu
-  | true => exact absurd (h.unusedFree d hd hu 3 (by omega)) h3
+theorem FaceScope.of_closedFaces {m : Map X} (hM : Mirror m) (hs : C20.Sided m) : FaceScope m := ⟨hM, hs⟩
 
 theorem face_b1 (m : Map X) (y : Nat) : m.β 1 y ∈ g3 m .face y := by simp [g3]
 theorem face_b0 (m : Map X) (y : Nat) : m.β 0 y ∈ g3 m .face y := by simp [g3]
@@ -869,135 +860,280 @@ theorem faceId3_free {m : Map X} (h : WF 4 m) (hS : FaceScope m) {d : Nat} (hd0 
   · exact ⟨e0, by rw [e]; exact (Reach.single (face_b0 m d)).trans (reach_iter (face_b0 m) _ s)⟩
   · rw [C20.iterate_fix0 z1] at e; exact absurd e e0
 
-/-- across a 3-link of a face in scope: the successor exists, is 3-linked, and `β0` on the other
-    side follows `β1` on this side -/
+theorem fw_mem {g : Nat → List Nat} {f1 f0 : Nat → Nat} (hg0 : ∀ y, y ∈ g 0 → y = 0)
+    (hf1 : ∀ y, f1 y ∈ g y) (hf0 : ∀ y, f0 y ∈ g y) {d fuel lb rb : Nat} {marked : List Nat}
+    {mn lbF rbF : Nat} {mkF : List Nat} {mnF : Nat}
+    (hlb : lb ≠ 0 → Reach g d lb) (hrb : rb ≠ 0 → Reach g d rb)
+    (h : Face3.fw f1 f0 fuel lb rb marked mn = some (lbF, rbF, mkF, mnF))
+    (hmn : mn ≠ 0 ∧ Reach g d mn) : mnF ≠ 0 ∧ Reach g d mnF := by
+  rcases (Face3.fw_facts _ _ _ _ _ _ _ _ _ h).2.1 with e | ⟨e0, ⟨s, e⟩ | ⟨s, e⟩⟩
+  · rw [e]; exact hmn
+  · refine ⟨e0, ?_⟩
+    have hl0 : lb ≠ 0 := by
+      intro k; rw [k, C20.iterate_fix0 (hg0 _ (hf1 0))] at e; exact e0 e
+    rw [e]; exact (hlb hl0).trans (reach_iter hf1 lb s)
+  · refine ⟨e0, ?_⟩
+    have hr0 : rb ≠ 0 := by
+      intro k; rw [k, C20.iterate_fix0 (hg0 _ (hf0 0))] at e; exact e0 e
+    rw [e]; exact (hrb hr0).trans (reach_iter hf0 rb s)
+
+/-- across a 3-link of a face in scope, `β0` on the other side follows `β1` on this side — also at the
+    open end of a face: both sides end together -/
 theorem mirror_fwd {m : Map X} (h : WF 4 m) (hS : FaceScope m) {x : Nat} (hx : x < m.n)
     (h3 : m.β 3 x ≠ 0) :
-    m.β 1 x ≠ 0 ∧ m.β 1 x < m.n ∧ m.β 3 (m.β 1 x) ≠ 0 ∧ m.β 0 (m.β 3 x) = m.β 3 (m.β 1 x) := by
-  have h1 := hS.closed x hx h3
-  have h1n := h.range 1 (by omega) x hx
-  have h31 : m.β 3 (m.β 1 x) ≠ 0 := fun e => h3 ((hS.sided x hx h1).2 e)
-  have hM := hS.mirror x hx h1 h3 h31
-  have := h.inv01 (m.β 3 (m.β 1 x)) (h.range 3 (by omega) _ h1n) (by rw [hM]; exact h3)
-  rw [hM] at this
-  exact ⟨h1, h1n, h31, this⟩
+    m.β 0 (m.β 3 x) = m.β 3 (m.β 1 x) ∧ (m.β 1 x ≠ 0 → m.β 3 (m.β 1 x) ≠ 0) := by
+  have z3 : m.β 3 0 = 0 := h.null 3 (by omega)
+  have hx0 : x ≠ 0 := fun e => h3 (by rw [e]; exact z3)
+  have hen : m.β 3 x < m.n := h.range 3 (by omega) x hx
+  have hinv : m.β 3 (m.β 3 x) = x := (h.invol 3 (by omega) (by omega) x hx h3).1
+  by_cases h1 : m.β 1 x = 0
+  · refine ⟨?_, fun k => absurd h1 k⟩
+    rw [h1, z3]
+    by_contra ht
+    have htn : m.β 0 (m.β 3 x) < m.n := h.range 0 (by omega) _ hen
+    have e1 : m.β 1 (m.β 0 (m.β 3 x)) = m.β 3 x := h.inv10 _ hen ht
+    have h3t : m.β 3 (m.β 0 (m.β 3 x)) ≠ 0 := by
+      intro k
+      have := (hS.sided _ htn (by rw [e1]; exact h3)).1 k
+      rw [e1, hinv] at this; exact hx0 this
+    have hM := hS.mirror _ htn (by rw [e1]; exact h3) h3t (by rw [e1, hinv]; exact hx0)
+    rw [e1, hinv, h1] at hM
+    exact h3t hM.symm
+  · have h1n := h.range 1 (by omega) x hx
+    have h31 : m.β 3 (m.β 1 x) ≠ 0 := fun e => h3 ((hS.sided x hx h1).2 e)
+    have hM := hS.mirror x hx h1 h3 h31
+    have := h.inv01 (m.β 3 (m.β 1 x)) (h.range 3 (by omega) _ h1n) (by rw [hM]; exact h3)
+    rw [hM] at this
+    exact ⟨this, fun _ => h31⟩
 
-/-- invariant of phase 1 of the two-sided walk on a 3-linked face -/
-structure GInv (m : Map X) (d lb rb : Nat) (marked : List Nat) (mn : Nat) : Prop where
+/-- … and `β1` on the other side follows `β0` on this side -/
+theorem mirror_bwd {m : Map X} (h : WF 4 m) (hS : FaceScope m) {x : Nat} (hx : x < m.n)
+    (h3 : m.β 3 x ≠ 0) :
+    m.β 1 (m.β 3 x) = m.β 3 (m.β 0 x) ∧ (m.β 0 x ≠ 0 → m.β 3 (m.β 0 x) ≠ 0) := by
+  have z3 : m.β 3 0 = 0 := h.null 3 (by omega)
+  have hx0 : x ≠ 0 := fun e => h3 (by rw [e]; exact z3)
+  have hen : m.β 3 x < m.n := h.range 3 (by omega) x hx
+  have hinv : m.β 3 (m.β 3 x) = x := (h.invol 3 (by omega) (by omega) x hx h3).1
+  by_cases h0 : m.β 0 x = 0
+  · refine ⟨?_, fun k => absurd h0 k⟩
+    rw [h0, z3]
+    by_contra ht
+    have htn : m.β 1 (m.β 3 x) < m.n := h.range 1 (by omega) _ hen
+    have h3t : m.β 3 (m.β 1 (m.β 3 x)) ≠ 0 := by
+      intro k
+      have := (hS.sided _ hen ht).2 k
+      rw [hinv] at this; exact hx0 this
+    have hM := hS.mirror _ hen ht (by rw [hinv]; exact hx0) h3t
+    rw [hinv] at hM
+    have := h.inv01 _ (h.range 3 (by omega) _ htn) (by rw [hM]; exact hx0)
+    rw [hM, h0] at this
+    exact h3t this.symm
+  · have hyn := h.range 0 (by omega) x hx
+    have e1 : m.β 1 (m.β 0 x) = x := h.inv10 x hx h0
+    have h3y : m.β 3 (m.β 0 x) ≠ 0 := by
+      intro k
+      have := (hS.sided _ hyn (by rw [e1]; exact hx0)).1 k
+      rw [e1] at this; exact h3 this
+    have hM := hS.mirror _ hyn (by rw [e1]; exact hx0) h3y (by rw [e1]; exact h3)
+    rw [e1] at hM
+    exact ⟨hM, fun _ => h3y⟩
+
+/-- invariant of phase 1 of the forward two-sided walk on a 3-linked face -/
+structure TInv (m : Map X) (d lb rb : Nat) (marked : List Nat) (mn : Nat) : Prop where
   m0 : 0 ∈ marked
   nd : marked.Nodup
   el : ∀ x, x ∈ marked → x ≠ 0 →
-    (m.β 1 x ∈ marked ∨ m.β 1 x = lb) ∧ x < m.n ∧ m.β 3 x ≠ 0 ∧ mn ≤ x ∧ mn ≤ m.β 3 x
-  lbp : lb < m.n ∧ m.β 3 lb ≠ 0 ∧ rb = m.β 3 lb ∧ mn ≤ lb ∧ mn ≤ rb
+    ((m.β 1 x ∈ marked ∧ m.β 1 x ≠ 0) ∨ m.β 1 x = lb) ∧ (x = d ∨ (m.β 0 x ∈ marked ∧ m.β 0 x ≠ 0)) ∧
+    x < m.n ∧ m.β 3 x ≠ 0 ∧ mn ≤ x ∧ mn ≤ m.β 3 x
+  lbn : lb < m.n
+  rbe : rb = m.β 3 lb
+  lbp : lb ≠ 0 → m.β 3 lb ≠ 0 ∧ mn ≤ lb ∧ mn ≤ rb ∧ (lb = d ∨ (m.β 0 lb ∈ marked ∧ m.β 0 lb ≠ 0))
   dm : d ∈ marked ∨ lb = d
 
-theorem GInv.step {m : Map X} (h : WF 4 m) (hS : FaceScope m) {d lb rb : Nat} {marked : List Nat}
-    {mn : Nat} (I : GInv m d lb rb marked mn) (hnew : marked.contains lb = false) :
-    GInv m d (m.β 1 lb) (m.β 0 rb) (marked ++ [lb]) (Face3.upd mn (m.β 1 lb) (m.β 0 rb)) := by
+theorem TInv.step {m : Map X} (h : WF 4 m) (hS : FaceScope m) {d lb rb : Nat} {marked : List Nat}
+    {mn : Nat} (I : TInv m d lb rb marked mn) (hnew : marked.contains lb = false) :
+    TInv m d (m.β 1 lb) (m.β 0 rb) (marked ++ [lb]) (Face3.upd mn (m.β 1 lb) (m.β 0 rb)) := by
   have hlb : lb ∉ marked := by simpa using hnew
-  obtain ⟨hlbn, hlb3, hrb, hmlb, hmrb⟩ := I.lbp
-  obtain ⟨h1, h1n, h31, hmir⟩ := mirror_fwd h hS hlbn hlb3
-  have hrb' : m.β 0 rb = m.β 3 (m.β 1 lb) := by rw [hrb]; exact hmir
+  have hlb0 : lb ≠ 0 := fun e => hlb (e ▸ I.m0)
+  obtain ⟨hlb3, hmlb, hmrb, hpred⟩ := I.lbp hlb0
+  obtain ⟨hmir, hmir2⟩ := mirror_fwd h hS I.lbn hlb3
+  have hrb' : m.β 0 rb = m.β 3 (m.β 1 lb) := by rw [I.rbe]; exact hmir
   have hu := Face3.upd_le mn (m.β 1 lb) (m.β 0 rb)
-  refine ⟨List.mem_append_left _ I.m0, ?_, ?_, ⟨h1n, h31, hrb', hu.2.1 h1, hu.2.2 (by rw [hrb']; exact h31)⟩, ?_⟩
+  have hself : lb ∈ marked ++ [lb] := List.mem_append_right _ (List.mem_singleton.2 rfl)
+  refine ⟨List.mem_append_left _ I.m0, ?_, ?_, h.range 1 (by omega) lb I.lbn, hrb', ?_, ?_⟩
   · exact List.nodup_append.2 ⟨I.nd, List.nodup_singleton _, fun a ha b hb e => hlb (by
       rw [List.mem_singleton.1 hb] at e; rw [← e]; exact ha)⟩
   · intro x hx hx0
     rcases List.mem_append.1 hx with hx | hx
-    · obtain ⟨a, b, c, e, f⟩ := I.el x hx hx0
-      refine ⟨?_, b, c, Nat.le_trans hu.1 e, Nat.le_trans hu.1 f⟩
-      rcases a with k | k
-      · exact Or.inl (List.mem_append_left _ k)
-      · exact Or.inl (List.mem_append_right _ (List.mem_singleton.2 k))
+    · obtain ⟨a, b, c, e, f, g⟩ := I.el x hx hx0
+      refine ⟨?_, ?_, c, e, Nat.le_trans hu.1 f, Nat.le_trans hu.1 g⟩
+      · rcases a with ⟨k, k0⟩ | k
+        · exact Or.inl ⟨List.mem_append_left _ k, k0⟩
+        · exact Or.inl ⟨by rw [k]; exact hself, by rw [k]; exact hlb0⟩
+      · rcases b with k | ⟨k, k0⟩
+        · exact Or.inl k
+        · exact Or.inr ⟨List.mem_append_left _ k, k0⟩
     · rw [List.mem_singleton.1 hx]
-      exact ⟨Or.inr rfl, hlbn, hlb3, Nat.le_trans hu.1 hmlb, by rw [← hrb]; exact Nat.le_trans hu.1 hmrb⟩
+      refine ⟨Or.inr rfl, ?_, I.lbn, hlb3, Nat.le_trans hu.1 hmlb, by rw [← I.rbe]; exact Nat.le_trans hu.1 hmrb⟩
+      rcases hpred with k | ⟨k, k0⟩
+      · exact Or.inl k
+      · exact Or.inr ⟨List.mem_append_left _ k, k0⟩
+  · intro h1
+    refine ⟨hmir2 h1, hu.2.1 h1, hu.2.2 (by rw [hrb']; exact hmir2 h1), Or.inr ?_⟩
+    rw [h.inv01 lb I.lbn h1]
+    exact ⟨hself, hlb0⟩
   · rcases I.dm with k | k
     · exact Or.inl (List.mem_append_left _ k)
-    · exact Or.inl (List.mem_append_right _ (List.mem_singleton.2 k.symm))
+    · exact Or.inl (by rw [← k]; exact hself)
 
-/-- at the end of phase 1 (the left dart is marked again) the marked darts are a closed β1-cycle and,
-    with their β3-images, the whole face: the running minimum is below every dart of the face -/
-theorem GInv.bound {m : Map X} (h : WF 4 m) (hS : FaceScope m) {d lb rb : Nat} {marked : List Nat}
-    {mn : Nat} (hd0 : d ≠ 0) (I : GInv m d lb rb marked mn) (hlb : lb ∈ marked) :
-    ∀ x, x ≠ 0 → Reach (g3 m .face) d x → mn ≤ x := by
+/-- the closure argument shared by the closed and the open case: a set `marked` of 3-linked darts,
+    closed under `β1` and `β0` (null images allowed), containing `d`, covers with its β3-images the
+    whole face of `d` -/
+theorem face_cover {m : Map X} (h : WF 4 m) (hS : FaceScope m) {d : Nat} {marked : List Nat}
+    (hdM : d ∈ marked) (h0 : 0 ∈ marked)
+    (hcl : ∀ x, x ∈ marked → x ≠ 0 → m.β 1 x ∈ marked ∧ m.β 0 x ∈ marked ∧ x < m.n ∧ m.β 3 x ≠ 0) :
+    ∀ x, Reach (g3 m .face) d x → x ≠ 0 →
+      x ∈ marked ∨ ∃ y, y ∈ marked ∧ y ≠ 0 ∧ x = m.β 3 y := by
   have z3 : m.β 3 0 = 0 := h.null 3 (by omega)
-  have hlb0 : lb ≠ 0 := fun e => I.lbp.2.1 (by rw [e]; exact z3)
+  intro x hx
+  induction hx with
+  | refl => intro _; exact Or.inl hdM
+  | tail hab hc ih =>
+      rename_i b' c'
+      intro hc0
+      have hbz : b' ≠ 0 := Reach.pred_ne_zero (g3_ok h .face trivial).null hc hc0
+      simp only [g3, List.mem_cons, List.not_mem_nil, or_false] at hc
+      rcases ih hbz with hb | ⟨y, hy, hy0, e⟩
+      · obtain ⟨a1, a0, _, _⟩ := hcl b' hb hbz
+        rcases hc with k | k | k
+        · rw [k]; exact Or.inl a1
+        · rw [k]; exact Or.inl a0
+        · exact Or.inr ⟨b', hb, hbz, k⟩
+      · obtain ⟨a1, a0, yn, y3⟩ := hcl y hy hy0
+        rcases hc with k | k | k
+        · -- β1 (β3 y) = β3 (β0 y)
+          have e2 : c' = m.β 3 (m.β 0 y) := by rw [k, e]; exact (mirror_bwd h hS yn y3).1
+          have : m.β 0 y ≠ 0 := fun z => hc0 (by rw [e2, z]; exact z3)
+          exact Or.inr ⟨m.β 0 y, a0, this, e2⟩
+        · -- β0 (β3 y) = β3 (β1 y)
+          have e2 : c' = m.β 3 (m.β 1 y) := by rw [k, e]; exact (mirror_fwd h hS yn y3).1
+          have : m.β 1 y ≠ 0 := fun z => hc0 (by rw [e2, z]; exact z3)
+          exact Or.inr ⟨m.β 1 y, a1, this, e2⟩
+        · left
+          rw [k, e, (h.invol 3 (by omega) (by omega) y yn y3).1]; exact hy
+
+/-- phase 1 ended on a non-null left dart: the marked darts are a closed β1-cycle and, with their
+    β3-images, the whole face -/
+theorem TInv.bound {m : Map X} (h : WF 4 m) (hS : FaceScope m) {d lb rb : Nat} {marked : List Nat}
+    {mn : Nat} (I : TInv m d lb rb marked mn) (hlb : lb ∈ marked) (hlb0 : lb ≠ 0) :
+    (∀ x, x ≠ 0 → Reach (g3 m .face) d x → mn ≤ x) ∧
+    ∀ s, (m.β 1)^[s] d ∈ marked ∧ ((m.β 1)^[s] d ≠ 0 ∨ d = 0) := by
   have memM : ∀ x, x ∈ marked.filter (fun x => decide (x ≠ 0)) ↔ x ∈ marked ∧ x ≠ 0 := by
     intro x; rw [List.mem_filter]; simp
   have hnd : (marked.filter (fun x => decide (x ≠ 0))).Nodup := I.nd.filter _
+  have hstep : ∀ x, x ∈ marked → x ≠ 0 → m.β 1 x ∈ marked ∧ m.β 1 x ≠ 0 := by
+    intro x hx hx0
+    rcases (I.el x hx hx0).1 with k | k
+    · exact k
+    · rw [k]; exact ⟨hlb, hlb0⟩
   have hmap : ∀ x, x ∈ marked.filter (fun x => decide (x ≠ 0)) →
       m.β 1 x ∈ marked.filter (fun x => decide (x ≠ 0)) := by
     intro x hx
     obtain ⟨hx1, hx0⟩ := (memM x).1 hx
-    obtain ⟨a, b, c, _, _⟩ := I.el x hx1 hx0
-    refine (memM _).2 ⟨?_, hS.closed x b c⟩
-    rcases a with k | k
-    · exact k
-    · rw [k]; exact hlb
+    exact (memM _).2 (hstep x hx1 hx0)
   have hinj : ∀ a b, a ∈ marked.filter (fun x => decide (x ≠ 0)) →
       b ∈ marked.filter (fun x => decide (x ≠ 0)) → m.β 1 a = m.β 1 b → a = b := by
     intro a b ha hb e
     obtain ⟨ha1, ha0⟩ := (memM a).1 ha
     obtain ⟨hb1, hb0⟩ := (memM b).1 hb
-    obtain ⟨_, an, a3, _, _⟩ := I.el a ha1 ha0
-    obtain ⟨_, bn, b3, _, _⟩ := I.el b hb1 hb0
-    have k1 := h.inv01 a an (hS.closed a an a3)
-    have k2 := h.inv01 b bn (hS.closed b bn b3)
+    have k1 := h.inv01 a (I.el a ha1 ha0).2.2.1 (hstep a ha1 ha0).2
+    have k2 := h.inv01 b (I.el b hb1 hb0).2.2.1 (hstep b hb1 hb0).2
     rw [← k1, ← k2, e]
   have hsurj := surj_of_inj_on_list hnd hmap hinj
-  -- closure under β0, with `β1 (β0 x) = x`
-  have hb0 : ∀ x, x ∈ marked → x ≠ 0 → (m.β 0 x ∈ marked ∧ m.β 0 x ≠ 0) ∧ m.β 1 (m.β 0 x) = x := by
+  have hb0 : ∀ x, x ∈ marked → x ≠ 0 → m.β 0 x ∈ marked := by
     intro x hx hx0
     obtain ⟨y, hy, e⟩ := hsurj x ((memM x).2 ⟨hx, hx0⟩)
     obtain ⟨hy1, hy0⟩ := (memM y).1 hy
-    obtain ⟨_, yn, _, _, _⟩ := I.el y hy1 hy0
-    have : m.β 0 x = y := by rw [← e]; exact h.inv01 y yn (by rw [e]; exact hx0)
-    rw [this]; exact ⟨⟨hy1, hy0⟩, e⟩
+    have : m.β 0 x = y := by rw [← e]; exact h.inv01 y (I.el y hy1 hy0).2.2.1 (by rw [e]; exact hx0)
+    rw [this]; exact hy1
   have hdM : d ∈ marked := by
     rcases I.dm with k | k
     · exact k
     · rw [← k]; exact hlb
-  have hall : ∀ x, Reach (g3 m .face) d x → x ≠ 0 →
-      x ∈ marked ∨ ∃ y, y ∈ marked ∧ y ≠ 0 ∧ x = m.β 3 y := by
-    intro x hx
-    induction hx with
-    | refl => intro _; exact Or.inl hdM
-    | tail hab hc ih =>
-        rename_i b' c'
-        intro hc0
-        have hbz : b' ≠ 0 := Reach.pred_ne_zero (g3_ok h .face trivial).null hc hc0
-        simp only [g3, List.mem_cons, List.not_mem_nil, or_false] at hc
-        rcases ih hbz with hb | ⟨y, hy, hy0, e⟩
-        · obtain ⟨a, bn, b3, _, _⟩ := I.el b' hb hbz
-          rcases hc with k | k | k
-          · rw [k]; left
-            rcases a with a | a
-            · exact a
-            · rw [a]; exact hlb
-          · rw [k]; exact Or.inl (hb0 b' hb hbz).1.1
-          · exact Or.inr ⟨b', hb, hbz, k⟩
-        · obtain ⟨a, yn, y3, _, _⟩ := I.el y hy hy0
-          rcases hc with k | k | k
-          · -- β1 (β3 y) = β3 (β0 y)
-            obtain ⟨⟨p0, p0z⟩, p1⟩ := hb0 y hy hy0
-            obtain ⟨_, pn, p3, _, _⟩ := I.el _ p0 p0z
-            have hM := hS.mirror (m.β 0 y) pn (by rw [p1]; exact hy0) p3 (by rw [p1]; exact y3)
-            rw [p1] at hM
-            exact Or.inr ⟨m.β 0 y, p0, p0z, by rw [k, e]; exact hM⟩
-          · -- β0 (β3 y) = β3 (β1 y)
-            obtain ⟨q1, _, _, q4⟩ := mirror_fwd h hS yn y3
-            refine Or.inr ⟨m.β 1 y, ?_, q1, by rw [k, e]; exact q4⟩
-            rcases a with a | a
-            · exact a
-            · rw [a]; exact hlb
-          · left
-            rw [k, e, (h.invol 3 (by omega) (by omega) y yn y3).1]; exact hy
+  constructor
+  · have hall := face_cover h hS hdM I.m0 (fun x hx hx0 =>
+      ⟨(hstep x hx hx0).1, hb0 x hx hx0, (I.el x hx hx0).2.2.1, (I.el x hx hx0).2.2.2.1⟩)
+    intro x hx0 hx
+    rcases hall x hx hx0 with hm | ⟨y, hy, hy0, e⟩
+    · exact (I.el x hm hx0).2.2.2.2.1
+    · rw [e]; exact (I.el y hy hy0).2.2.2.2.2
+  · intro s
+    by_cases hd0 : d = 0
+    · refine ⟨?_, Or.inr hd0⟩
+      rw [hd0, C20.iterate_fix0 (h.null 1 (by omega))]; exact I.m0
+    · induction s with
+      | zero => exact ⟨hdM, Or.inl hd0⟩
+      | succ s ih =>
+          rw [Function.iterate_succ_apply']
+          rcases ih.2 with k | k
+          · exact ⟨(hstep _ ih.1 k).1, Or.inl (hstep _ ih.1 k).2⟩
+          · exact absurd k hd0
+
+/-- invariant of phase 1 of the backward two-sided walk on an open 3-linked face -/
+structure BInv (m : Map X) (d lb rb : Nat) (marked : List Nat) (mn : Nat) : Prop where
+  m0 : 0 ∈ marked
+  dmem : d ∈ marked
+  el : ∀ x, x ∈ marked → x ≠ 0 →
+    (m.β 0 x ∈ marked ∨ m.β 0 x = lb) ∧ m.β 1 x ∈ marked ∧ x < m.n ∧ m.β 3 x ≠ 0 ∧ mn ≤ x ∧ mn ≤ m.β 3 x
+  lbn : lb < m.n
+  rbe : rb = m.β 3 lb
+  lbp : lb ≠ 0 → m.β 3 lb ≠ 0 ∧ mn ≤ lb ∧ mn ≤ rb ∧ m.β 1 lb ∈ marked
+
+theorem BInv.step {m : Map X} (h : WF 4 m) (hS : FaceScope m) {d lb rb : Nat} {marked : List Nat}
+    {mn : Nat} (I : BInv m d lb rb marked mn) (hnew : marked.contains lb = false) :
+    BInv m d (m.β 0 lb) (m.β 1 rb) (marked ++ [lb]) (Face3.upd mn (m.β 0 lb) (m.β 1 rb)) := by
+  have hlb : lb ∉ marked := by simpa using hnew
+  have hlb0 : lb ≠ 0 := fun e => hlb (e ▸ I.m0)
+  obtain ⟨hlb3, hmlb, hmrb, hsucc⟩ := I.lbp hlb0
+  obtain ⟨hmir, hmir2⟩ := mirror_bwd h hS I.lbn hlb3
+  have hrb' : m.β 1 rb = m.β 3 (m.β 0 lb) := by rw [I.rbe]; exact hmir
+  have hu := Face3.upd_le mn (m.β 0 lb) (m.β 1 rb)
+  have hself : lb ∈ marked ++ [lb] := List.mem_append_right _ (List.mem_singleton.2 rfl)
+  refine ⟨List.mem_append_left _ I.m0, List.mem_append_left _ I.dmem, ?_,
+    h.range 0 (by omega) lb I.lbn, hrb', ?_⟩
+  · intro x hx hx0
+    rcases List.mem_append.1 hx with hx | hx
+    · obtain ⟨a, b, c, e, f, g⟩ := I.el x hx hx0
+      refine ⟨?_, List.mem_append_left _ b, c, e, Nat.le_trans hu.1 f, Nat.le_trans hu.1 g⟩
+      rcases a with k | k
+      · exact Or.inl (List.mem_append_left _ k)
+      · exact Or.inl (by rw [k]; exact hself)
+    · rw [List.mem_singleton.1 hx]
+      exact ⟨Or.inr rfl, List.mem_append_left _ hsucc, I.lbn, hlb3, Nat.le_trans hu.1 hmlb,
+        by rw [← I.rbe]; exact Nat.le_trans hu.1 hmrb⟩
+  · intro h0
+    refine ⟨hmir2 h0, hu.2.1 h0, hu.2.2 (by rw [hrb']; exact hmir2 h0), ?_⟩
+    rw [h.inv10 lb I.lbn h0]
+    exact hself
+
+/-- the backward phase ended: the marked darts are the whole open β1-chain and, with their β3-images,
+    the whole face -/
+theorem BInv.bound {m : Map X} (h : WF 4 m) (hS : FaceScope m) {d lb rb : Nat} {marked : List Nat}
+    {mn : Nat} (I : BInv m d lb rb marked mn) (hlb : lb ∈ marked) :
+    ∀ x, x ≠ 0 → Reach (g3 m .face) d x → mn ≤ x := by
+  have hall := face_cover h hS I.dmem I.m0 (fun x hx hx0 => by
+    obtain ⟨a, b, c, e, _, _⟩ := I.el x hx hx0
+    refine ⟨b, ?_, c, e⟩
+    rcases a with k | k
+    · exact k
+    · rw [k]; exact hlb)
   intro x hx0 hx
   rcases hall x hx hx0 with hm | ⟨y, hy, hy0, e⟩
-  · exact (I.el x hm hx0).2.2.2.1
-  · rw [e]; exact (I.el y hy hy0).2.2.2.2
+  · exact (I.el x hm hx0).2.2.2.2.1
+  · rw [e]; exact (I.el y hy hy0).2.2.2.2.2
 
-/-- a 3-linked dart of a face in scope: the forward walk alone covers both sides -/
+/-- a 3-linked dart of a face in scope: the forward walk covers both sides of a closed face; on an open
+    face both sides end together and the backward replay covers the rest -/
 theorem faceId3_glued {m : Map X} (h : WF 4 m) (hS : FaceScope m) {d : Nat} (hd0 : d ≠ 0) (hd : d < m.n)
     (h3 : m.β 3 d ≠ 0) :
     ∃ v, run (faceId3 (X := X) m.n d) m = (.ok v, m) ∧ (v ≠ 0 ∧ Reach (g3 m .face) d v) ∧
@@ -1006,47 +1142,93 @@ theorem faceId3_glued {m : Map X} (h : WF 4 m) (hS : FaceScope m) {d : Nat} (hd0
   have r0 : ∀ x, x < m.n → m.β 0 x < m.n := h.range 0 (by omega)
   have r3 : ∀ x, x < m.n → m.β 3 x < m.n := h.range 3 (by omega)
   have z3 : m.β 3 0 = 0 := h.null 3 (by omega)
+  have g0 := (g3_ok h .face trivial).null
+  have he : Reach (g3 m .face) d (m.β 3 d) := Reach.single (face_b3 m d)
   obtain ⟨⟨lbF, rbF, mkF, mnF⟩, hr1⟩ := Face3.fw_terminates r1 r0 (m.n + 1) d (m.β 3 d) [0]
     (if m.β 3 d = 0 then d else min d (m.β 3 d)) hd (r3 d hd)
     (by have := Face3.phi_le (n := m.n) (marked := [0]) h.npos (by simp); omega)
   have hr1' := hr1
   rw [if_neg h3] at hr1'
-  have I0 : GInv m d d (m.β 3 d) [0] (min d (m.β 3 d)) :=
-    ⟨by simp, by simp, fun x hx hx0 => absurd (by simpa using hx) hx0,
-      ⟨hd, h3, rfl, Nat.min_le_left _ _, Nat.min_le_right _ _⟩, Or.inr rfl⟩
-  obtain ⟨lb', rb', mk', mn', I', hmem, hle, _⟩ := Face3.fw_phase1_inv (f1 := m.β 1) (f0 := m.β 0)
-    (fun lb rb marked mn => GInv m d lb rb marked mn) (fun lb rb marked mn I hnew => I.step h hS hnew)
+  have I0 : TInv m d d (m.β 3 d) [0] (min d (m.β 3 d)) :=
+    ⟨by simp, by simp, fun x hx hx0 => absurd (by simpa using hx) hx0, hd, rfl,
+      fun _ => ⟨h3, Nat.min_le_left _ _, Nat.min_le_right _ _, Or.inl rfl⟩, Or.inr rfl⟩
+  obtain ⟨lb', rb', mk', mn', I', hmem, hle, hfin⟩ := Face3.fw_phase1_inv (f1 := m.β 1) (f0 := m.β 0)
+    (fun lb rb marked mn => TInv m d lb rb marked mn) (fun lb rb marked mn I hnew => I.step h hS hnew)
     _ _ _ _ _ _ _ _ _ I0 hr1'
-  have hbound := I'.bound h hS hd0 hmem
-  -- both sides are never null
-  have hiter : ∀ s, (m.β 1)^[s] d < m.n ∧ m.β 3 ((m.β 1)^[s] d) ≠ 0 ∧
-      (m.β 0)^[s] (m.β 3 d) = m.β 3 ((m.β 1)^[s] d) := by
-    intro s
-    induction s with
-    | zero => exact ⟨hd, h3, rfl⟩
-    | succ s ih =>
-        obtain ⟨a, b, c⟩ := ih
-        obtain ⟨_, q2, q3, q4⟩ := mirror_fwd h hS a b
-        rw [Function.iterate_succ_apply', Function.iterate_succ_apply', c]
-        exact ⟨q2, q3, q4⟩
-  obtain ⟨_, g2, _, T, g4, g5⟩ := Face3.fw_facts _ _ _ _ _ _ _ _ _ hr1'
-  have hlbF : lbF ≠ 0 := by
-    intro e; rw [g4] at e
-    exact (hiter T).2.1 (by rw [e]; exact z3)
-  have hrbF : rbF ≠ 0 := by rw [g5, (hiter T).2.2]; exact (hiter T).2.1
-  have hrun := (C20.run_faceId3 h hd hr1).1 (by rintro (k | k); exact hlbF k; exact hrbF k)
-  refine ⟨mnF, hrun, ?_, fun x hx0 hx => Nat.le_trans hle (hbound x hx0 hx)⟩
-  have he : Reach (g3 m .face) d (m.β 3 d) := Reach.single (face_b3 m d)
-  rcases g2 with e | ⟨e0, ⟨s, e⟩ | ⟨s, e⟩⟩
-  · rw [e]
+  have memF : mnF ≠ 0 ∧ Reach (g3 m .face) d mnF := by
+    refine fw_mem g0 (face_b1 m) (face_b0 m) (fun _ => .refl _) (fun _ => he) hr1' ?_
     rcases Nat.le_total d (m.β 3 d) with k | k
     · rw [Nat.min_eq_left k]; exact ⟨hd0, .refl _⟩
     · rw [Nat.min_eq_right k]; exact ⟨h3, he⟩
-  · exact ⟨e0, by rw [e]; exact reach_iter (face_b1 m) d s⟩
-  · exact ⟨e0, by rw [e]; exact he.trans (reach_iter (face_b0 m) _ s)⟩
+  by_cases hl : lb' = 0
+  · -- open face: both sides ended; backward replay
+    have hrb' : rb' = 0 := by rw [I'.rbe, hl]; exact z3
+    obtain ⟨rfl, rfl, rfl, rfl⟩ := hfin (by rw [hrb']; exact I'.m0)
+    have hdM : d ∈ mkF := by
+      rcases I'.dm with k | k
+      · exact k
+      · exact absurd (k.symm.trans hl) hd0
+    obtain ⟨mb1, mb2⟩ := mirror_bwd h hS hd h3
+    obtain ⟨⟨a, b, c, mn2⟩, hr2⟩ := Face3.fw_terminates (f1 := m.β 0) (f0 := m.β 1) r0 r1 (m.n + 1)
+      (m.β 0 d) (m.β 1 (m.β 3 d)) mkF (Face3.upd mnF (m.β 0 d) (m.β 1 (m.β 3 d))) (r0 d hd)
+      (r1 _ (r3 d hd))
+      (by have := Face3.phi_le (n := m.n) (marked := mkF) h.npos I'.m0; omega)
+    have hu := Face3.upd_le mnF (m.β 0 d) (m.β 1 (m.β 3 d))
+    have IB0 : BInv m d (m.β 0 d) (m.β 1 (m.β 3 d)) mkF (Face3.upd mnF (m.β 0 d) (m.β 1 (m.β 3 d))) := by
+      refine ⟨I'.m0, hdM, ?_, r0 d hd, mb1, ?_⟩
+      · intro x hx hx0
+        obtain ⟨p, q, r, s, t, u⟩ := I'.el x hx hx0
+        refine ⟨?_, ?_, r, s, Nat.le_trans hu.1 t, Nat.le_trans hu.1 u⟩
+        · rcases q with k | ⟨k, _⟩
+          · exact Or.inr (by rw [k])
+          · exact Or.inl k
+        · rcases p with ⟨k, _⟩ | k
+          · exact k
+          · rw [k, hl]; exact I'.m0
+      · intro k0
+        refine ⟨mb2 k0, hu.2.1 k0, hu.2.2 (by rw [mb1]; exact mb2 k0), ?_⟩
+        rw [h.inv10 d hd k0]; exact hdM
+    obtain ⟨lb2, rb2, mk2, mn2', I2, hmem2, hle2, _⟩ := Face3.fw_phase1_inv (f1 := m.β 0) (f0 := m.β 1)
+      (fun lb rb marked mn => BInv m d lb rb marked mn) (fun lb rb marked mn I hnew => I.step h hS hnew)
+      _ _ _ _ _ _ _ _ _ IB0 hr2
+    have hrun := ((C20.run_faceId3 h hd hr1).2 (Or.inl hl)) a b c mn2 hr2
+    refine ⟨mn2, hrun, ?_, fun x hx0 hx => Nat.le_trans hle2 (I2.bound h hS hmem2 x hx0 hx)⟩
+    refine fw_mem g0 (face_b0 m) (face_b1 m) (fun _ => Reach.single (face_b0 m d))
+      (fun _ => he.tail (face_b1 m _)) hr2 ?_
+    rcases Face3.upd_mem mnF (m.β 0 d) (m.β 1 (m.β 3 d)) with e | ⟨e0, e⟩ | ⟨e0, e⟩
+    · rw [e]; exact memF
+    · rw [e]; exact ⟨e0, Reach.single (face_b0 m d)⟩
+    · rw [e]; exact ⟨e0, he.tail (face_b1 m _)⟩
+  · -- closed face
+    obtain ⟨hbound, hiter⟩ := I'.bound h hS hmem hl
+    obtain ⟨_, _, _, T, g4, g5⟩ := Face3.fw_facts _ _ _ _ _ _ _ _ _ hr1'
+    -- the right-hand sequence is the β3-image of the left-hand one
+    have hright : ∀ s, (m.β 0)^[s] (m.β 3 d) = m.β 3 ((m.β 1)^[s] d) := by
+      intro s
+      induction s with
+      | zero => rfl
+      | succ s ih =>
+          have hs := hiter s
+          have hs0 : (m.β 1)^[s] d ≠ 0 := by
+            rcases hs.2 with k | k
+            · exact k
+            · exact absurd k hd0
+          obtain ⟨_, _, xn, x3, _, _⟩ := I'.el _ hs.1 hs0
+          rw [Function.iterate_succ_apply', Function.iterate_succ_apply', ih]
+          exact (mirror_fwd h hS xn x3).1
+    have hT0 : (m.β 1)^[T] d ≠ 0 := by
+      rcases (hiter T).2 with k | k
+      · exact k
+      · exact absurd k hd0
+    have hlbF : lbF ≠ 0 := by rw [g4]; exact hT0
+    have hrbF : rbF ≠ 0 := by
+      rw [g5, hright T]; exact (I'.el _ (hiter T).1 hT0).2.2.2.1
+    have hrun := (C20.run_faceId3 h hd hr1).1 (by rintro (k | k); exact hlbF k; exact hrbF k)
+    exact ⟨mnF, hrun, memF, fun x hx0 hx => Nat.le_trans hle (hbound x hx0 hx)⟩
 
-/-- **C03 (3-D), face id**: on a well-formed 3-map whose 3-linked faces are closed, 3-linked as a whole
-    and mirrored (`FaceScope`; faces that are not 3-linked may be open), `face_id_transac` terminates
+/-- **C03 (3-D), face id**: on a well-formed 3-map whose 3-linked faces are 3-linked as a whole and
+    mirrored (`FaceScope`; this contains the property's scope "glued faces closed and mirrored", open
+    glued faces and faces that are not 3-linked are covered too), `face_id_transac` terminates
     within its fuel, leaves the map alone and returns the smallest dart of the face cell (the closure of
     the dart under `β1, β0, β3`) — for every non-null existing dart -/
 theorem C03_faceId3_min {m : Map X} (h : WF 4 m) (hS : FaceScope m) {d : Nat} (hd0 : d ≠ 0) (hd : d < m.n) :
@@ -1163,8 +1345,23 @@ example : 10 ∈ orb3 ex3 .face 11 ∧ 10 ∉ orb3 ex3 .faceLinear 11 := by deci
 example : atomicallyLog (volumeId3 ex3.n 9) ex3 = (.ok (cellId3 ex3 .volume 9), ex3) :=
   (C03_plain_ids3 ex3_wf (by decide) (by decide)).2.2
 
+-- an OPEN mirrored 3-linked face (chains 1→2→3 and 6→5→4, 3-links 1—4, 2—5, 3—6): from the middle dart the
+-- forward walk ends on the null dart on both sides and the backward replay finds dart 1
+def exOpen : Map Val :=
+  { n := 7
+    b := #[#[0, 0, 1, 2, 5, 6, 0], #[0, 2, 3, 0, 0, 4, 5], #[0, 0, 0, 0, 0, 0, 0], #[0, 4, 5, 6, 1, 2, 3]]
+    u := #[false, false, false, false, false, false, false]
+    a := #[] }
+theorem exOpen_wf : WF 4 exOpen := by decide
+theorem exOpen_scope : FaceScope exOpen := by decide
+example : ¬ C20.ClosedFaces exOpen := by decide
+example : run (faceId3 exOpen.n 5) exOpen = (.ok (cellId3 exOpen .face 5), exOpen) :=
+  (C03_faceId3_min exOpen_wf exOpen_scope (by decide) (by decide)).1
+example : cellId3 exOpen .face 5 = 1 := by decide +kernel
+example : orb3 exOpen .face 5 = [5, 4, 6, 2, 1, 3] := by decide +kernel
+
 -- the scope of C20b is a special case
 example : FaceScope C20.exP :=
-  FaceScope.of_closedFaces C20.exP_wf.1 C20.exP_closed C20.exP_mirror C20.exP_sided
+  FaceScope.of_closedFaces C20.exP_mirror C20.exP_sided
 
 end HC.C03
